@@ -303,6 +303,25 @@ func c18(c *core.Ctx) {
 			fn := c.Fn(tp + ".TxPool." + f)
 			c.Check(f+"→getSubTxs", "sibling-agreement", len(core.CallsIn(fn, sub)) == 1, fn.Pos(), "%s expands the sub-txs of a box like its siblings", f)
 		}
+		// deleting a box removes its sub transactions whether or not the box itself is in this pool (it may have been packaged by another
+		// miner): in delTx the expansion is skipped only for a nil transaction or a transaction that is not a box
+		dfn := c.Fn(tp + ".TxPool.delTx")
+		typeM := c.Method("chain/types.Transaction", "Type")
+		for _, g := range core.CallsIn(dfn, sub) {
+			onlyControlledBy(c, "delTx:getSubTxs/whatever-the-own-lookup-says", "removing the sub transactions of a deleted box", g, nil, func(ct core.Ctrl) bool {
+				sl := core.SliceShallow(ct.If.Cond)
+				if core.SliceHasCall(sl, typeM) {
+					return true
+				}
+				// tx == nil
+				if bo, ok := ct.If.Cond.(*ssa.BinOp); ok && (core.IsNilConst(bo.X) || core.IsNilConst(bo.Y)) {
+					if bo.X == ssa.Value(dfn.Params[1]) || bo.Y == ssa.Value(dfn.Params[1]) {
+						return true
+					}
+				}
+				return false
+			})
+		}
 	})
 
 	c.Clause("C18.4", "fork switch: the old fork's txs are added before the new fork's are deleted; extending the fork deletes the new block's txs; a side-fork block's txs go to the pool")
@@ -437,6 +456,67 @@ func c18(c *core.Ctx) {
 				c.Check("MineBlock:filter(parentHeader.Hash())", "value-flow", len(a) >= 2 && core.SliceHasCall(core.Slice(a[1]), ph), ci.Pos(), "the fork is named by the hash of the parent header the block is built on")
 			}
 		}
+	})
+
+	c.Clause("C18.6", "what is indexed like the slot list is reset like the slot list: a slice field of the pool that some function indexes with the very index it uses for TxPool.txs is a parallel structure; every function that replaces txs (growth, the reset when the pool runs empty) replaces it too — otherwise the two are shifted against each other and a transaction is judged by a slot that belongs to another one")
+	c.Run("parallel-fields", func() {
+		pst := c.Struct(tp + ".TxPool")
+		txsF := c.FieldVar(tp+".TxPool", "txs")
+		isPoolSlice := map[*types.Var]bool{}
+		for i := 0; i < pst.NumFields(); i++ {
+			if _, ok := pst.Field(i).Type().Underlying().(*types.Slice); ok && pst.Field(i) != txsF {
+				isPoolSlice[pst.Field(i)] = true
+			}
+		}
+		fieldOfSlice := func(v ssa.Value) *types.Var {
+			if ld, ok := v.(*ssa.UnOp); ok && ld.Op == token.MUL {
+				return core.FieldOf(ld.X)
+			}
+			return nil
+		}
+		parallel := map[*types.Var]*ssa.Function{}
+		var pkgFns []*ssa.Function
+		for _, fn := range c.SrcFuncs {
+			if core.RelPkg(fn) != tp || isTestHelper(c, fn) {
+				continue
+			}
+			pkgFns = append(pkgFns, fn)
+			idxOfTxs := map[ssa.Value]bool{}
+			var others []*ssa.IndexAddr
+			for _, b := range fn.Blocks {
+				for _, in := range b.Instrs {
+					ia, ok := in.(*ssa.IndexAddr)
+					if !ok {
+						continue
+					}
+					switch f := fieldOfSlice(ia.X); {
+					case f == txsF:
+						idxOfTxs[ia.Index] = true
+					case f != nil && isPoolSlice[f]:
+						others = append(others, ia)
+					}
+				}
+			}
+			for _, ia := range others {
+				if idxOfTxs[ia.Index] {
+					parallel[fieldOfSlice(ia.X)] = fn
+				}
+			}
+		}
+		// every function that stores txs stores the parallel fields
+		nRepl := 0
+		for _, fn := range pkgFns {
+			if len(storesToO8(fn, txsF)) == 0 {
+				continue
+			}
+			// appends that grow txs by one element are co-updates too; what matters is that the function touches the parallel field at all
+			nRepl++
+			for f, where := range parallel {
+				c.Check("parallel/"+f.Name()+"@"+shortFn(fn), "paired-write", len(storesToO8(fn, f)) > 0, fn.Pos(), "%s replaces TxPool.txs; TxPool.%s is indexed in step with txs (in %s) and must be replaced with it", shortFn(fn), f.Name(), shortFn(where))
+			}
+		}
+		c.Floor("txs-replacing-functions", nRepl, 2)
+		c.Note("slice fields of TxPool indexed in step with txs: %d", len(parallel))
 	})
 
 	c.NotDecidedf("set semantics under interleavings (linearizability of AddTx/GetTxs/DelTxs), loss of sibling sub-txs when one sub-tx is deleted (documented in the code), capacity arithmetic")
